@@ -23,6 +23,11 @@ CHECKS = {
         text="For real_expand (interleaved), Realp (component-blocked, matrix and scalar form) and quaternion_to_complex_adjoint the harness records the code's integer image of every basis element, every conformable basis pair (shapes <= 2 quick / 3 thorough), signed unit pairs (cancelling sums), a catalogue (all 81 sign patterns, pure-imaginary, cancelling components) and random integer matrices; TLC computes every matrix product / transpose / sum and checks additivity, multiplicativity, *-preservation, norm scaling and the contract round trip; component split/merge round trips (A2A0123, solver conversions dense+sparse, qslst split/stack) likewise. Layout equality with the documented layouts is a DRIFT clause.",
         note="Trusted: TLC's integer arithmetic, the oracle product used to form A*B (itself re-checked by TLC in each event). Float inputs only: bitwise round trip + product law to 64 units.",
         design_ref="5/C02"),
+    "C18": dict(
+        technique="TLC-enumerated shape x mode case space with contract check (Tensor.tla); recorded label matrices / colour maps / metrics validated by TensorTrace.tla",
+        text="Tensor.tla enumerates all shapes <= 3^3 (quick) / 4^3 (thorough) x modes and proves that the documented unfolding layout meets the contract (shape, columns are mode-n fibres in mode order, each fibre once). Each case is run through tensor_unfold/tensor_fold with a label tensor in four memory layouts (C, Fortran, transposed view, strided); TLC checks the contract on the returned label matrix (column order is DRIFT only), fold(unfold)=T, norm and moduli. rgb<->quat on uint8-range / dyadic [0,1] / binary / arbitrary(no clip) data for all small H,W and real parts, split/stack, psnr/relative_error zero-distance consistency on equal/unequal integer arrays, and mean SNR over 64 seeds (statistical, 0.5 dB) are recorded as integer events and decided by TLC.",
+        note="Trusted: label encoding (dims <= 9), harness float->int scaling (exact, dyadic). relative_error with zero reference is documented to return inf and is outside the claim. SNR clause is statistical.",
+        design_ref="5/C18"),
 }
 
 NOT_YET = "check not built yet in this round; see DESIGN.md section 5"
